@@ -12,6 +12,7 @@ IDIOMS = [("int(0)", "FURB123"), ("not not 0", "FURB114")]
 
 PRELUDE = '''\
 import asyncio
+from typing import assert_type, cast
 xs = [1, 2, 3]
 def f(*a, **k): return 0
 def deco(*a, **k): return lambda g: g
@@ -40,6 +41,8 @@ EXPR = {
     "genexp-elt": "list(({E}) for _ in xs)", "comp-2nd-iter": "[1 for _ in xs for _ in [({E})]]",
     "comp-2nd-if": "[1 for _ in xs for _ in xs if ({E})]", "fstring": 'f"{{({E})}}"', "fstring-spec": 'f"{{1:{{({E})}}}}"',
     "walrus": "(y := ({E}))", "starred": "(*[({E})],)", "repr-call": "repr({E})",
+    # special forms: mypy keeps an `analyzed` node beside the call that shares the argument expression
+    "cast": "cast(object, {E})", "assert-type": "assert_type({E}, object)",
 }
 
 # statement contexts: one expression hole; flags: F = needs an enclosing function
@@ -182,48 +185,51 @@ def run(ctx: Ctx) -> None:
                 text += src
             Path(path).write_text(text)
             files.append(path)
-        out = rmain.run_refurb(Settings(files=files, quiet=True, disable_all=True,
-                                        enable={ErrorCode(123), ErrorCode(114)}))
-        strs = [e for e in out if isinstance(e, str)]
-        if strs:
-            ctx.obligation("context corpus builds under mypy", False, strs[0][:300])
-            return
-        got = {}
-        for e in out:
-            k = (e.filename, e.line, e.column, f"{e.prefix}{e.code}")
-            got[k] = got.get(k, 0) + 1
-        def comps(label):
-            b, st, ex = label.split("|")
-            return [x for x in b.split("/") if x and x != "plain"] + ([st] if st not in ("expr", "assign") else []) \
-                + [x for x in ex.split("/") if x and x != "id"]
+        # the same corpus under each selection: which visit methods exist depends on what is enabled
+        for sel in (('FURB123', 'FURB114'), ('FURB123',), ('FURB114',)):
+            out = rmain.run_refurb(Settings(files=files, quiet=True, disable_all=True, enable={ErrorCode(int(c[4:])) for c in sel}))
+            strs = [e for e in out if isinstance(e, str)]
+            if strs:
+                ctx.obligation("context corpus builds under mypy", False, strs[0][:300])
+                return
+            got = {}
+            for e in out:
+                k = (e.filename, e.line, e.column, f"{e.prefix}{e.code}")
+                got[k] = got.get(k, 0) + 1
+            def comps(label):
+                b, st, ex = label.split("|")
+                return [x for x in b.split("/") if x and x != "plain"] + ([st] if st not in ("expr", "assign") else []) \
+                    + [x for x in ex.split("/") if x and x != "id"]
 
-        def lookup(k, label):
-            """(times reported, unexpected keys consumed). Inside an f-string mypy's columns
-            are not source columns: match by line and code there (C07 owns positions)."""
-            if "fstring" in label:
-                ks = [g for g in got if g[0] == k[0] and g[1] == k[1] and g[3] == k[3]]
-                return sum(got[g] for g in ks), ks
-            return got.get(k, 0), [k]
+            def lookup(k, label):
+                """(times reported, unexpected keys consumed). Inside an f-string mypy's columns
+                are not source columns: match by line and code there (C07 owns positions)."""
+                if "fstring" in label:
+                    ks = [g for g in got if g[0] == k[0] and g[1] == k[1] and g[3] == k[3]]
+                    return sum(got[g] for g in ks), ks
+                return got.get(k, 0), [k]
 
-        failures, consumed = [], set()
-        for k, label in expect.items():
-            n, ks = lookup(k, label)
-            consumed.update(ks)
-            ctx.case(("ctx", label, k[3]), sample={"context": label, "idiom": k[3]} if rng.random() < 0.01 else None)
-            if n != 1:
-                failures.append((k, label, n))
-        bad_single = {comps(l)[0] for k, l, n in failures if len(comps(l)) == 1}
-        for k, label, n in failures:
-            cs = comps(label)
-            culprit = next((c for c in cs if c in bad_single), None) or "+".join(cs[-2:])
-            src_line = Path(k[0]).read_text().split("\n")[k[1] - 1]
-            ctx.report(f"context:{culprit}:{'missed' if n == 0 else 'x%d' % n}",
-                       f"{k[3]} idiom in context {label} reported {n} times (line: {src_line.strip()[:80]})",
-                       {"context": label, "line_text": src_line, "expected_col": k[2], "times": n,
-                        "cmd": "refurb --disable-all --enable FURB123 --enable FURB114 <file>"})
-        for k, n in got.items():
-            if k not in consumed:
+            failures, consumed = [], set()
+            for k, label in expect.items():
+                if k[3] not in sel:
+                    continue
+                n, ks = lookup(k, label)
+                consumed.update(ks)
+                ctx.case(("ctx", label, k[3], tuple(sel)), sample={"context": label, "idiom": k[3]} if rng.random() < 0.01 else None)
+                if n != 1:
+                    failures.append((k, label, n))
+            bad_single = {comps(l)[0] for k, l, n in failures if len(comps(l)) == 1}
+            for k, label, n in failures:
+                cs = comps(label)
+                culprit = next((c for c in cs if c in bad_single), None) or "+".join(cs[-2:])
                 src_line = Path(k[0]).read_text().split("\n")[k[1] - 1]
-                ctx.report(f"context:unexpected:{k[3]}", f"{k[3]} at {k[1]}:{k[2]} where no idiom starts: {src_line.strip()[:80]}",
-                           {"line_text": src_line, "col": k[2]})
+                ctx.report(f"context:{culprit}:{'missed' if n == 0 else 'x%d' % n}" + ("" if len(sel) == 2 else ":only-" + sel[0]),
+                           f"{k[3]} idiom in context {label} reported {n} times (line: {src_line.strip()[:80]})",
+                           {"context": label, "line_text": src_line, "expected_col": k[2], "times": n,
+                            "cmd": "refurb --disable-all " + " ".join("--enable " + c for c in sel) + " <file>", "selection": list(sel)})
+            for k, n in got.items():
+                if k not in consumed:
+                    src_line = Path(k[0]).read_text().split("\n")[k[1] - 1]
+                    ctx.report(f"context:unexpected:{k[3]}", f"{k[3]} at {k[1]}:{k[2]} where no idiom starts: {src_line.strip()[:80]}",
+                               {"line_text": src_line, "col": k[2]})
     ctx.extra["context_units"] = len(units)
